@@ -135,3 +135,12 @@ def roundF32 (x : Rat) : Rat :=
 /-- `as i64` on a finite value: truncation toward zero -/
 def truncInt (x : Rat) : Int := if x ≥ 0 then x.floor else -((-x).floor)
 end SimVerif.Wire
+
+namespace SimVerif.Wire
+/-- rational approximation of `√x` (x ≥ 0) with absolute error < 2^-k·(1/den) — used only inside
+tolerance comparisons of Layer-G answers, never in a theorem -/
+def ratSqrt (x : Rat) (k : Nat := 40) : Rat :=
+  if x ≤ 0 then 0 else
+  let n := x.num.natAbs * x.den * 4 ^ k
+  ((Nat.sqrt n : Nat) : Rat) / ((x.den * 2 ^ k : Nat) : Rat)
+end SimVerif.Wire
